@@ -29,6 +29,7 @@ import (
 	"go/token"
 	"go/types"
 	"os"
+	"path/filepath"
 	"sort"
 	"strconv"
 	"strings"
@@ -101,6 +102,8 @@ type funcCtx struct {
 	recv    string
 	mutRecv bool
 	mutable map[string]bool
+	resultIsSlice []bool
+	freshSl map[string]bool // locals made by `make` here and never aliased: element writes are value updates
 	results []ast.Expr
 	retErr  bool
 }
@@ -131,6 +134,8 @@ func (t *trans) leanType(e ast.Expr) string {
 			return "Bool"
 		case "int", "int64", "int32", "uint", "uint64", "uint32":
 			return "Int"
+		case "byte", "uint8":
+			return "UInt8"
 		case "error":
 			return "GoError"
 		}
@@ -252,6 +257,8 @@ func (t *trans) zeroValue(e ast.Expr) string {
 		return "false"
 	case lt == "Int":
 		return "(0 : Int)"
+	case lt == "UInt8":
+		return "(0 : UInt8)"
 	case lt == "GoError" || strings.HasPrefix(lt, "(Option "):
 		return "none"
 	case strings.HasPrefix(lt, "(List "):
@@ -381,6 +388,14 @@ func (t *trans) expr(e ast.Expr) string {
 		return t.binary(x)
 	case *ast.IndexExpr:
 		return "(← index " + t.expr(x.X) + " " + t.expr(x.Index) + ")"
+	case *ast.SliceExpr:
+		// `xs[:n]` / `xs[n:]` within the length (Go also allows a bound up to the capacity: outside the model, it panics here)
+		if !x.Slice3 && x.Low == nil && x.High != nil {
+			return "(← sliceTo " + t.expr(x.X) + " " + t.expr(x.High) + ")"
+		}
+		if !x.Slice3 && x.Low != nil && x.High == nil {
+			return "(← sliceFrom " + t.expr(x.X) + " " + t.expr(x.Low) + ")"
+		}
 	case *ast.CompositeLit:
 		// a value of an error type (`ErrBadStatus{…}`): only its being an error matters to the callers we translate
 		if id, ok := x.Type.(*ast.Ident); ok && isErrorTypeName(id.Name) {
@@ -436,11 +451,38 @@ func (t *trans) binary(x *ast.BinaryExpr) string {
 			op = " != "
 		}
 		return "(" + t.expr(x.X) + op + t.expr(x.Y) + ")"
-	case token.LSS, token.GTR, token.LEQ, token.GEQ, token.ADD, token.SUB:
+	case token.LSS, token.GTR, token.LEQ, token.GEQ, token.ADD, token.SUB, token.MUL:
 		return "(" + t.expr(x.X) + " " + x.Op.String() + " " + t.expr(x.Y) + ")"
+	case token.REM:
+		if t.isIntExpr(x.X) && t.isIntExpr(x.Y) {
+			return "(← goMod " + t.expr(x.X) + " " + t.expr(x.Y) + ")"
+		}
+	case token.QUO:
+		if t.isIntExpr(x.X) && t.isIntExpr(x.Y) {
+			return "(← goDiv " + t.expr(x.X) + " " + t.expr(x.Y) + ")"
+		}
 	}
 	t.failf("%s: unsupported operator in %s", t.cur.name, t.src(x))
 	return "default"
+}
+
+// isIntExpr: of a signed or unsigned integer type other than byte (unbounded `Int` in the model: no wrap-around)
+func (t *trans) isIntExpr(e ast.Expr) bool {
+	tv, ok := t.info.Types[e]
+	if !ok || tv.Type == nil {
+		return false
+	}
+	b, ok := tv.Type.Underlying().(*types.Basic)
+	return ok && b.Info()&types.IsInteger != 0 && b.Kind() != types.Uint8
+}
+
+func (t *trans) isByteExpr(e ast.Expr) bool {
+	tv, ok := t.info.Types[e]
+	if !ok || tv.Type == nil {
+		return false
+	}
+	b, ok := tv.Type.Underlying().(*types.Basic)
+	return ok && b.Kind() == types.Uint8
 }
 
 func (t *trans) args(as []ast.Expr) string {
@@ -462,6 +504,26 @@ func (t *trans) call(c *ast.CallExpr) string {
 		case "append":
 			if len(c.Args) == 2 && c.Ellipsis == token.NoPos {
 				return "(" + t.expr(c.Args[0]) + " ++ [" + t.expr(c.Args[1]) + "])"
+			}
+			if len(c.Args) == 2 && c.Ellipsis != token.NoPos {
+				return "(" + t.expr(c.Args[0]) + " ++ " + t.expr(c.Args[1]) + ")"
+			}
+		case "make":
+			if at, ok := c.Args[0].(*ast.ArrayType); ok && at.Len == nil && len(c.Args) == 2 {
+				return "(← makeSlice " + t.expr(c.Args[1]) + " " + t.zeroValue(at.Elt) + ")"
+			}
+		case "byte", "uint8":
+			if len(c.Args) == 1 && t.isIntExpr(c.Args[0]) {
+				return "(toByte " + t.expr(c.Args[0]) + ")"
+			}
+		case "int":
+			if len(c.Args) == 1 && t.isByteExpr(c.Args[0]) {
+				return "(byteToInt " + t.expr(c.Args[0]) + ")"
+			}
+			if len(c.Args) == 1 && t.isIntExpr(c.Args[0]) {
+				if b, ok := t.info.Types[c.Args[0]].Type.Underlying().(*types.Basic); ok && b.Kind() == types.Int {
+					return t.expr(c.Args[0])
+				}
 			}
 		}
 		if t.externs[f.Name] {
@@ -734,6 +796,11 @@ func (t *trans) retExpr(results []ast.Expr) string {
 				s = append(s, t.cur.yieldZero)
 				continue
 			}
+			// a nil slice is the empty list
+			if isNil(r) && t.cur.resultIsSlice != nil && i < len(t.cur.resultIsSlice) && t.cur.resultIsSlice[i] {
+				s = append(s, "[]")
+				continue
+			}
 			s = append(s, t.expr(r))
 		}
 		v = "(" + strings.Join(s, ", ") + ")"
@@ -887,6 +954,12 @@ func (t *trans) assign(o *out, ind int, x *ast.AssignStmt) {
 				t.failf("%s: unsupported assignment operator", t.cur.name)
 			}
 			return
+		case *ast.IndexExpr:
+			// xs[i] = v on a local slice that nothing else aliases (checked: the variable comes from `make` in this function)
+			if id, ok := l.X.(*ast.Ident); ok && x.Tok == token.ASSIGN && t.cur.freshSl[id.Name] {
+				o.line(ind, t.varName(id.Name)+" := (← setIndex "+t.varName(id.Name)+" "+t.expr(l.Index)+" "+t.expr(x.Rhs[0])+")")
+				return
+			}
 		case *ast.SelectorExpr:
 			// errValue.Field = value: the error stays the same non-nil error
 			if tv, ok := t.info.Types[l.X]; ok && x.Tok == token.ASSIGN {
@@ -1050,6 +1123,57 @@ func (t *trans) need(name string) {
 	t.cur = saved
 }
 
+// freshSlices: variables defined by `x := make([]T, n)` whose every other use is `len(x)`, `x[i]` (read or write) or the spread
+// operand of `append(y, x...)` (which copies) — so no second name ever refers to the same backing array and `x[i] = v` can be
+// translated as a value update of x.
+func freshSlices(body *ast.BlockStmt) map[string]bool {
+	m := map[string]bool{}
+	defs := map[*ast.Ident]bool{}
+	ast.Inspect(body, func(n ast.Node) bool {
+		if a, ok := n.(*ast.AssignStmt); ok && a.Tok == token.DEFINE && len(a.Lhs) == 1 && len(a.Rhs) == 1 {
+			if id, ok := a.Lhs[0].(*ast.Ident); ok {
+				if c, ok := a.Rhs[0].(*ast.CallExpr); ok {
+					if f, ok := c.Fun.(*ast.Ident); ok && f.Name == "make" {
+						m[id.Name] = true
+						defs[id] = true
+					}
+				}
+			}
+		}
+		return true
+	})
+	ok := map[*ast.Ident]bool{}
+	ast.Inspect(body, func(n ast.Node) bool {
+		switch x := n.(type) {
+		case *ast.IndexExpr:
+			if id, isID := x.X.(*ast.Ident); isID {
+				ok[id] = true
+			}
+		case *ast.CallExpr:
+			if f, isID := x.Fun.(*ast.Ident); isID {
+				if f.Name == "len" && len(x.Args) == 1 {
+					if id, isID := x.Args[0].(*ast.Ident); isID {
+						ok[id] = true
+					}
+				}
+				if f.Name == "append" && len(x.Args) == 2 && x.Ellipsis != token.NoPos {
+					if id, isID := x.Args[1].(*ast.Ident); isID {
+						ok[id] = true
+					}
+				}
+			}
+		}
+		return true
+	})
+	ast.Inspect(body, func(n ast.Node) bool {
+		if id, isID := n.(*ast.Ident); isID && m[id.Name] && !defs[id] && !ok[id] {
+			delete(m, id.Name)
+		}
+		return true
+	})
+	return m
+}
+
 func mutatedVars(body *ast.BlockStmt) map[string]bool {
 	m := map[string]bool{}
 	ast.Inspect(body, func(n ast.Node) bool {
@@ -1057,6 +1181,12 @@ func mutatedVars(body *ast.BlockStmt) map[string]bool {
 			for _, l := range a.Lhs {
 				if id, ok := l.(*ast.Ident); ok {
 					m[id.Name] = true
+				}
+				// xs[i] = v writes the slice variable
+				if ix, ok := l.(*ast.IndexExpr); ok {
+					if id, ok := ix.X.(*ast.Ident); ok {
+						m[id.Name] = true
+					}
 				}
 			}
 		}
@@ -1082,7 +1212,19 @@ func (t *trans) function(name string) {
 		t.failf("function %s not found", name)
 		return
 	}
-	ctx := &funcCtx{name: name, mutable: mutatedVars(fd.Body), mutRecv: sp.mutRecv}
+	ctx := &funcCtx{name: name, mutable: mutatedVars(fd.Body), freshSl: freshSlices(fd.Body), mutRecv: sp.mutRecv}
+	if fd.Type.Results != nil {
+		for _, f := range fd.Type.Results.List {
+			_, isSl := f.Type.(*ast.ArrayType)
+			n := len(f.Names)
+			if n == 0 {
+				n = 1
+			}
+			for i := 0; i < n; i++ {
+				ctx.resultIsSlice = append(ctx.resultIsSlice, isSl)
+			}
+		}
+	}
 	if sp.state != "" {
 		ctx.mutRecv = true
 	}
@@ -1341,6 +1483,9 @@ func (t *trans) leanTypeOf(ty types.Type, where string) string {
 		if x.Info()&types.IsBoolean != 0 {
 			return "Bool"
 		}
+		if x.Kind() == types.Uint8 {
+			return "UInt8"
+		}
 		if x.Info()&types.IsInteger != 0 {
 			return "Int"
 		}
@@ -1361,12 +1506,45 @@ func (t *trans) leanTypeOf(ty types.Type, where string) string {
 
 // ---------------------------------------------------------------- driver
 
+// translate: the root package into <outPath>, and package xmlenc into TransXmlenc.lean beside it
 func translate(repo string, p *pkgFiles, outPath string) {
+	rootSpecs := []transSpec{
+		{fn: "firstSet"},
+		{fn: "validateRequestID", recv: "ServiceProvider"},
+		{fn: "validateAudienceRestriction", recv: "ServiceProvider"},
+		{fn: "validateAssertion", recv: "ServiceProvider"},
+		{fn: "validateLogoutResponse", recv: "ServiceProvider"},
+		{fn: "parseAssertion", recv: "ServiceProvider"},
+		{fn: "parseEncryptedAssertion", recv: "ServiceProvider"},
+		{fn: "parseResponse", recv: "ServiceProvider"},
+		{fn: "findOneChild"},
+		{fn: "validateSignature", recv: "ServiceProvider", as: "trustRoots", until: "certificateStore :=", yield: "certs", yieldTy: "(List (Option Certificate))"},
+		{fn: "parseArtifactResponse", recv: "ServiceProvider"},
+		{fn: "getSPEncryptionCert", recv: "IdpAuthnRequest", until: "certStr = regexp.", yield: "certStr", yieldTy: "String"},
+		{fn: "getACSEndpoint", recv: "IdpAuthnRequest", mutRecv: true},
+		{fn: "ServeIDPInitiated", recv: "IdentityProvider", as: "idpInitiatedSelect", state: "req",
+			anchor: "for _, spssoDescriptor := range req.ServiceProviderMetadata.SPSSODescriptors", until: "if req.ACSEndpoint == nil"},
+		{fn: "Validate", recv: "IdpAuthnRequest", mutRecv: true, anchor: "mustHaveDestination :="},
+	}
+	rootExterns := map[string]bool{"validateSignature": true, "decryptElement": true, "unmarshalElement": true, "findChildren": true,
+		"findChild": true, "getIDPSigningCerts": true, "getCertBasedOnFingerprint": true, "parseCert": true}
+	translatePkg(p, outPath, "saml", "SamlVerif.Trans", rootSpecs, rootExterns)
+	xSpecs := []transSpec{
+		{fn: "appendPadding"},
+		{fn: "stripPadding"},
+	}
+	xOut := ""
+	if outPath != "" {
+		xOut = filepath.Join(filepath.Dir(outPath), "TransXmlenc.lean")
+	}
+	translatePkg(parseDir(filepath.Join(repo, "xmlenc")), xOut, "xmlenc", "SamlVerif.TransX", xSpecs, map[string]bool{})
+}
+
+func translatePkg(p *pkgFiles, outPath string, pkgName string, ns string, specs []transSpec, externs map[string]bool) {
 	t := &trans{p: p, structs: map[string]*ast.StructType{}, ifaces: map[string]*ast.InterfaceType{}, named: map[string]ast.Expr{},
 		funcs: map[string]*ast.FuncDecl{}, specs: map[string]transSpec{}, usedF: map[string]map[string]bool{}, usedM: map[string]map[string]bool{},
 		envVars: map[string]string{}, done: map[string]bool{}, bodies: map[string]string{},
-		externs: map[string]bool{"validateSignature": true, "decryptElement": true, "unmarshalElement": true, "findChildren": true,
-			"findChild": true, "getIDPSigningCerts": true, "getCertBasedOnFingerprint": true, "parseCert": true}, extSigs: map[string]string{}}
+		externs: externs, extSigs: map[string]string{}}
 	var files []*ast.File
 	for _, fn := range sortedFileNames(p) {
 		f := p.files[fn]
@@ -1407,26 +1585,8 @@ func translate(repo string, p *pkgFiles, outPath string) {
 	}
 	t.info = &types.Info{Types: map[ast.Expr]types.TypeAndValue{}, Uses: map[*ast.Ident]types.Object{}, Defs: map[*ast.Ident]types.Object{}}
 	conf := types.Config{Importer: &fakeImporter{pkgs: map[string]*types.Package{}}, Error: func(error) {}, DisableUnusedImportCheck: true}
-	_, _ = conf.Check("saml", p.fset, files, t.info)
+	_, _ = conf.Check(pkgName, p.fset, files, t.info)
 
-	specs := []transSpec{
-		{fn: "firstSet"},
-		{fn: "validateRequestID", recv: "ServiceProvider"},
-		{fn: "validateAudienceRestriction", recv: "ServiceProvider"},
-		{fn: "validateAssertion", recv: "ServiceProvider"},
-		{fn: "validateLogoutResponse", recv: "ServiceProvider"},
-		{fn: "parseAssertion", recv: "ServiceProvider"},
-		{fn: "parseEncryptedAssertion", recv: "ServiceProvider"},
-		{fn: "parseResponse", recv: "ServiceProvider"},
-		{fn: "findOneChild"},
-		{fn: "validateSignature", recv: "ServiceProvider", as: "trustRoots", until: "certificateStore :=", yield: "certs", yieldTy: "(List (Option Certificate))"},
-		{fn: "parseArtifactResponse", recv: "ServiceProvider"},
-		{fn: "getSPEncryptionCert", recv: "IdpAuthnRequest", until: "certStr = regexp.", yield: "certStr", yieldTy: "String"},
-		{fn: "getACSEndpoint", recv: "IdpAuthnRequest", mutRecv: true},
-		{fn: "ServeIDPInitiated", recv: "IdentityProvider", as: "idpInitiatedSelect", state: "req",
-			anchor: "for _, spssoDescriptor := range req.ServiceProviderMetadata.SPSSODescriptors", until: "if req.ACSEndpoint == nil"},
-		{fn: "Validate", recv: "IdpAuthnRequest", mutRecv: true, anchor: "mustHaveDestination :="},
-	}
 	key := func(s transSpec) string {
 		if s.as != "" {
 			return s.as
@@ -1449,7 +1609,7 @@ func translate(repo string, p *pkgFiles, outPath string) {
 
 	var b strings.Builder
 	b.WriteString("/- GENERATED by /verif/extract (trans.go) from the current source of /repo — do not edit. -/\n")
-	b.WriteString("import SamlVerif.Model.GoSem\n\nset_option linter.unusedVariables false\n\nnamespace SamlVerif.Trans\nopen SamlVerif SamlVerif.GoSem\n\n")
+	b.WriteString("import SamlVerif.Model.GoSem\n\nset_option linter.unusedVariables false\n\nnamespace " + ns + "\nopen SamlVerif SamlVerif.GoSem\n\n")
 	// structures, dependencies first
 	emittedS := map[string]bool{}
 	var emitS func(name string, stack map[string]bool)
@@ -1570,7 +1730,7 @@ func translate(repo string, p *pkgFiles, outPath string) {
 	}
 	sort.Strings(t.fails)
 	writeStrList(&b, "transFailures", t.fails)
-	b.WriteString("end SamlVerif.Trans\n")
+	b.WriteString("end " + ns + "\n")
 	if outPath == "" {
 		fmt.Print(b.String())
 		return
